@@ -198,7 +198,7 @@ func runC01(c *Ctx) {
 	// ------------------------------------------------------------------
 	rExh := c.Rule("gate-exhaustive", "the gate compares the dependency condition with each of the five ProcessCondition* constants")
 	isCond := func(v ssa.Value) bool { return PathOf(v).LastField() == s.FCondition }
-	cases := EqCasesOn(gate, isCond)
+	cases := EqCasesOn(s.gateSwitchOf(gate), isCond)
 	have := map[string][]EqCase{}
 	for _, ec := range cases {
 		have[ec.Const] = append(have[ec.Const], ec)
@@ -579,8 +579,18 @@ func alwaysBeforeNilReturn(f *ssa.Function, d *Deep) bool {
 
 // checkGateCases (C01, C05): per condition the right latch is awaited on the
 // looked-up dependency and a negative result becomes an error return.
-func (s *Sel) checkGateCases(c *Ctx, gate *ssa.Function, ruleID string, all bool) {
+// gateSwitchOf: the function holding the per-condition cases of the gate (the gate itself unless extracted).
+func (s *Sel) gateSwitchOf(gate *ssa.Function) *ssa.Function {
+	if in, ok := s.GateSwitch[gate]; ok {
+		return in
+	}
+	return gate
+}
+
+func (s *Sel) checkGateCases(c *Ctx, outer *ssa.Function, ruleID string, all bool) {
 	p := c.P
+	gate := s.gateSwitchOf(outer)
+	c.Touch(outer, gate)
 	isCond := func(v ssa.Value) bool { return PathOf(v).LastField() == s.FCondition }
 	cases := EqCasesOn(gate, isCond)
 	have := map[string][]EqCase{}
@@ -624,7 +634,17 @@ func (s *Sel) checkGateCases(c *Ctx, gate *ssa.Function, ruleID string, all bool
 			}
 			// receiver is the looked-up dependency: result of a *Process-returning call whose argument is the range key
 			rcv := ReceiverOf(&waitCall.Call)
-			c.Check(rcv != nil && s.isDepLookup(rcv, gate), rLatch, "case:"+name+":on-dependency", p.InstrPos(waitCall),
+			// (with an extracted switch the receiver is a parameter: judged at the call in the gate)
+			if prm, isPrm := stripConv(rcv).(*ssa.Parameter); isPrm && gate != outer {
+				if call := s.GateSwitchCall[outer]; call != nil {
+					for i, q := range gate.Params {
+						if q == prm && i < len(call.Call.Args) {
+							rcv = call.Call.Args[i]
+						}
+					}
+				}
+			}
+			c.Check(rcv != nil && s.isDepLookup(rcv, outer), rLatch, "case:"+name+":on-dependency", p.InstrPos(waitCall),
 				"wait is performed on the dependency looked up by the depends_on key", "the wait is not performed on the process looked up by the depends_on key")
 			// result-bearing cases
 			switch val {
@@ -636,6 +656,29 @@ func (s *Sel) checkGateCases(c *Ctx, gate *ssa.Function, ruleID string, all bool
 		}
 	}
 
+	// an extracted switch: its error is the gate's error
+	if gate != outer {
+		call := s.GateSwitchCall[outer]
+		okProp := call != nil
+		if call != nil {
+			n := 0
+			for x := range Reach([]Pt{after(call)}, nil, ErrNilEdge(call, false)) {
+				if _, isNext := x.(*ssa.Next); isNext {
+					okProp = false
+				}
+				if ret, isRet := x.(*ssa.Return); isRet {
+					n++
+					if IsNilConst(RetVals(ret)[len(ret.Results)-1]) {
+						okProp = false
+					}
+				}
+			}
+			if n == 0 {
+				okProp = false
+			}
+		}
+		c.Check(okProp, rLatch, "switch-error-propagated", FirstPos(p, outer), "an unmet condition reported by the helper ends the gate with that error", "the gate does not return the error of its per-dependency helper (it goes on to the next dependency or returns nil): a dependent whose condition was not met is launched")
+	}
 	c.Floor(rLatch, 8, "gate cases")
 }
 
